@@ -34,7 +34,8 @@ Part (b): the comparison functions, transcribed header by header.  `α` is the c
 * `optional/comparison.hpp`                                      : `Opt.eq Opt.ne Opt.lt`
 * `either/comparison.hpp`                                        : `Either.eq Either.ne`
 * `variant/comparison.hpp` (`std::variant ==`, `<`), `variant/compare.hpp` : `Var.eq Var.ne Var.lt Var.compare`
-* `record/comparison.hpp`                                        : `Rec.eq`
+* `record/comparison.hpp`                                        : `Rec.eq`, `Rec2.eqPermuted`
+* tuples / variants with element types of their own               : `Pair.*`, `SumV.*` (nested)
 * `math/{vector,dim}/comparison.hpp`                             : `MVec.*`
 * `math/matrix/comparison.hpp`                                   : `equalV` on the row-major storage
 * `math/box/comparison.hpp`, `math/box/object_impl.hpp` (`pos`, `size`, the `(pos, size)` constructor),
@@ -261,6 +262,44 @@ def compare (c : α → α → Bool) (l r : Var α) : Bool :=
   | some li => c li r.val
 end Var
 
+/-! ## heterogeneous products and sums: `tuple<A, B, …>`, `variant<A, B, …>`, `record<…>` with element types of their own
+
+`std::tuple ==` compares position by position from the left and stops at the first difference; a tuple of any
+arity is a nested pair `A × (B × (C × …))`.  `std::variant` holding alternative `i` of `A, B, C, …` is the nested sum
+`A ⊕ (B ⊕ (C ⊕ …))`: `inl` = the first alternative, so the nesting order is the index order. -/
+variable {γ : Type}
+namespace Pair
+def eq (eqA : α → α → Bool) (eqB : β → β → Bool) (a b : α × β) : Bool := eqA a.1 b.1 && eqB a.2 b.2
+def ne (eqA : α → α → Bool) (eqB : β → β → Bool) (a b : α × β) : Bool := !(Pair.eq eqA eqB a b)
+end Pair
+
+namespace SumV
+/-- `std::variant ==`: same index and equal values of that alternative -/
+def eq (eqA : α → α → Bool) (eqB : β → β → Bool) (a b : Sum α β) : Bool :=
+  match a, b with
+  | .inl x, .inl y => eqA x y
+  | .inr x, .inr y => eqB x y
+  | _, _ => false
+def ne (eqA : α → α → Bool) (eqB : β → β → Bool) (a b : Sum α β) : Bool := !(SumV.eq eqA eqB a b)
+/-- `std::variant <`: the smaller index first, then the values of the common alternative -/
+def lt (ltA : α → α → Bool) (ltB : β → β → Bool) (a b : Sum α β) : Bool :=
+  match a, b with
+  | .inl x, .inl y => ltA x y
+  | .inl _, .inr _ => true
+  | .inr _, .inl _ => false
+  | .inr x, .inr y => ltB x y
+/-- `variant::compare(l, r, c)`: `c` on the values when both hold the same alternative, else `false` -/
+def compare (cA : α → α → Bool) (cB : β → β → Bool) (l r : Sum α β) : Bool :=
+  match l, r with
+  | .inl x, .inl y => cA x y
+  | .inr x, .inr y => cB x y
+  | _, _ => false
+end SumV
+
+/-- `record<L0 : A, L1 : B> == record<L1 : B, L0 : A>` (the same labels in another order): label by label -/
+def Rec2.eqPermuted (eqA : α → α → Bool) (eqB : β → β → Bool) (r1 : α × β) (r2 : β × α) : Bool :=
+  eqA r1.1 r2.2 && eqB r1.2 r2.1
+
 /-! ## record: list of (label, value); `get<Label>` is a lookup -/
 abbrev Rec (α : Type) := List (Nat × α)
 
@@ -397,6 +436,28 @@ def eq (eq : α → α → Bool) (a b : α) : Bool := eq a b
 def ne (eq : α → α → Bool) (a b : α) : Bool := !(Recursive.eq eq a b)
 end Recursive
 
+/-! ## owning wrappers expose the wrapped object: `recursive` (`recursive_impl.hpp`: a `unique_ptr` inside)
+
+`cell = none` is the state after having been moved from (a null `unique_ptr`); `get` there is a null dereference. -/
+structure RecCell (α : Type) where
+  cell : Option α
+
+namespace RecCell
+/-- `recursive(Type const &)`, `recursive(Type &&)`: `make_unique_ptr<Type>(value)` -/
+def make (v : α) : RecCell α := ⟨some v⟩
+/-- `get()`: `*impl_` -/
+def get (r : RecCell α) : M α := match r.cell with | some v => pure v | none => throw .emptyDeref
+/-- copy constructor: `make_unique_ptr<Type>(_other.get())` — a new object holding a copy -/
+def copy (o : RecCell α) : M (RecCell α) := do let v ← o.get; pure ⟨some v⟩
+/-- copy assignment: `if (this == &_other) return *this; impl_ = make_unique_ptr<Type>(_other.get());` -/
+def assign (self other : RecCell α) (sameObject : Bool) : M (RecCell α) :=
+  if sameObject then pure self else do let v ← other.get; pure ⟨some v⟩
+/-- move construction / move assignment (defaulted: that of `unique_ptr`): (target, what is left of the source) -/
+def move (o : RecCell α) : RecCell α × RecCell α := (⟨o.cell⟩, ⟨none⟩)
+/-- writing through the non-const `get()` -/
+def set (r : RecCell α) (v : α) : M (RecCell α) := match r.cell with | some _ => pure ⟨some v⟩ | none => throw .emptyDeref
+end RecCell
+
 /-! ## iterator::range (`iterator/range_comparison.hpp`): a pair of iterators -/
 namespace IterRange
 /-- `_left.begin() == _right.begin() && _left.end() == _right.end()` -/
@@ -443,6 +504,8 @@ def ne (a b : SPtr) : Bool := a.ptr != b.ptr
 def lt (a b : SPtr) : Bool := decide (a.ptr < b.ptr)
 /-- `std::hash<T *>()(_value.get_pointer())` -/
 def hash (hp : Nat → Nat) (a : SPtr) : Nat := hp a.ptr
+/-- `operator*`: the object at the stored pointer (address 0 = null) -/
+def get {α : Type} (mem : Nat → α) (a : SPtr) : M α := if a.ptr = 0 then throw .emptyDeref else pure (mem a.ptr)
 end SPtr
 
 end Fcppt.C17
